@@ -127,6 +127,13 @@ impl LeastSquaresProblem<f64, Dyn, U6> for PointsToMesh<'_> {
     fn set_params(&mut self, x: &Vector<f64, U6, Self::ParameterStorage>) {
         self.params.set(x);
         self.move_points();
+        #[cfg(feature = "verif")]
+        crate::verif_hooks::log_event(
+            "points_to_mesh",
+            crate::verif_hooks::EventKind::SetParams,
+            x.as_slice(),
+            &[],
+        );
     }
 
     fn params(&self) -> Vector<f64, U6, Self::ParameterStorage> {
@@ -142,6 +149,14 @@ impl LeastSquaresProblem<f64, Dyn, U6> for PointsToMesh<'_> {
             };
         }
 
+        #[cfg(feature = "verif")]
+        crate::verif_hooks::log_event(
+            "points_to_mesh",
+            crate::verif_hooks::EventKind::Residuals,
+            self.params.x.as_slice(),
+            res.as_slice(),
+        );
+
         Some(res)
     }
 
@@ -155,6 +170,14 @@ impl LeastSquaresProblem<f64, Dyn, U6> for PointsToMesh<'_> {
             };
             copy_jacobian(&values, &mut jac, i);
         }
+
+        #[cfg(feature = "verif")]
+        crate::verif_hooks::log_event(
+            "points_to_mesh",
+            crate::verif_hooks::EventKind::Jacobian,
+            self.params.x.as_slice(),
+            jac.transpose().as_slice(),
+        );
 
         Some(jac)
     }
